@@ -1,13 +1,17 @@
 (* C18 - a monitor sees everything that matches and can affect nothing.
 
-   Model: Monitor/Monitor.v (bus with monitors: capture hook at every site, BecomeMonitor, name release,
-   pending replies, ordinary match rules, the two refusal kinds of the test policy, what libdbus answers
-   by itself).  Specification: Spec/MonitorSpec.v (declarative match-rule semantics, the clauses of the
-   property).  Proofs: Proofs/MonitorBase.v, MonitorInv.v, MonitorSees.v, MonitorErase.v, MonitorSwitch.v.
+   Model: Monitor/Monitor.v (bus with monitors: capture hook at every site, BecomeMonitor with its argument
+   and privilege checks, name release, pending replies, ordinary match rules, the two refusal kinds of the test
+   policy, messages held for service activation, what libdbus answers by itself).  Specification:
+   Spec/MonitorSpec.v (declarative match-rule semantics, the clauses of the property).  Proofs:
+   Proofs/MonitorBase.v, MonitorInv.v, MonitorSees.v, MonitorErase.v, MonitorSwitch.v.
 
    Where the faithful model breaks the literal text, the full statement is kept, the part that holds is
    proved with the exception spelled out, and the exception is exhibited (`_refuted`); tools/props/c18.py
-   replays those witnesses on the real daemon (findings F18a, F18b, F18c in notes/C18.md). *)
+   replays those witnesses on the real daemon (findings F18a, F18b, F18c, F18e in notes/C18.md).
+
+   [creachable] = reachable by a history in which no connection calls BecomeMonitor while a message of its
+   own is still held for service activation (Spec.calm); [reachable] = reachable at all. *)
 From Coq Require Import Permutation.
 From DV Require Import Lib.Base Monitor.Monitor Spec.MonitorSpec Proofs.MonitorBase Proofs.MonitorInv Proofs.MonitorSees
                        Proofs.MonitorErase Proofs.MonitorSwitch.
@@ -15,12 +19,19 @@ Local Open Scope N_scope.
 
 (* ---------------------------------------------------------------- sees everything that matches, once, with the true sender *)
 (* every item the bus produces in a state where x is a monitor - calls, replies, signals, driver-made
-   signals / replies / errors, refusals - except those libdbus consumes on the bus's side of the socket *)
+   signals / replies / errors, refusals, messages put on hold for activation - except those libdbus consumes
+   on the bus's side of the socket; a held message is such an item when it is RECEIVED *)
 Theorem C18_sees_once : forall st e x it,
-  reachable st -> is_monitor st x = true -> In it (snd (step st e)) -> i_local it = false ->
+  creachable st -> is_monitor st x = true -> In it (snd (step st e)) -> i_local it = false -> i_resumed it = false ->
   sees_once_at st x it /\ true_sender it.
 Proof. exact sees_once. Qed.
 Print Assumptions C18_sees_once.
+
+(* ... and is not shown a second time when its dispatch is resumed *)
+Theorem C18_resumed_no_copy : forall st e it,
+  creachable st -> In it (snd (step st e)) -> i_resumed it = true -> i_cap it = [] /\ true_sender it.
+Proof. exact resumed_no_copy. Qed.
+Print Assumptions C18_resumed_no_copy.
 
 (* the model's matching loop is the declarative rule semantics of the specification *)
 Theorem C18_filter_semantics : forall own f from addr m,
@@ -29,7 +40,8 @@ Proof. exact fmatch_accepts. Qed.
 Print Assumptions C18_filter_semantics.
 
 Definition ping (serial : N) : bmsg := mkB TCall SNone None I_PEER M_PING serial 0 0 false false [].
-Definition h_mon : list event := [EConnect; EConnect; EBecomeMonitor 1 2 []].
+Definition bm (c : cid) (serial : N) (rs : list (option flt)) : event := EBecomeMonitor c serial true 0 rs.
+Definition h_mon : list event := [EConnect true; EConnect true; bm 1 2 []].
 Definition st_mon : state := state_after h_mon.
 Lemma st_mon_reachable : reachable st_mon.
 Proof. exists h_mon; reflexivity. Qed.
@@ -39,7 +51,7 @@ Proof. exists h_mon; reflexivity. Qed.
 Theorem C18_sees_once_refuted : ~ C18_sees_once_full_statement.
 Proof.
   intros H.
-  specialize (H st_mon (ESend 0 (ping 2)) 1 (mkItem (st_own st_mon) (Some 0) None (stamp 0 (ping 2)) true [] None [])
+  specialize (H st_mon (ESend 0 (ping 2)) 1 (mkItem (st_own st_mon) (Some 0) None (stamp 0 (ping 2)) true [] None [] false)
                 st_mon_reachable eq_refl (or_introl eq_refl)).
   destruct H as [H _].
   assert (W : monitor_wants (st_mrules st_mon) (st_own st_mon) 1 (Some 0) None (stamp 0 (ping 2))).
@@ -50,7 +62,7 @@ Print Assumptions C18_sees_once_refuted.
 
 (* ---------------------------------------------------------------- never the addressee of a delivery *)
 Theorem C18_never_addressee : forall st e x it,
-  reachable st -> is_monitor st x = true -> In it (snd (step st e)) -> i_local it = false ->
+  creachable st -> is_monitor st x = true -> In it (snd (step st e)) -> i_local it = false ->
   i_direct it <> Some x /\ ~ In x (i_match it).
 Proof. exact never_addressee. Qed.
 Print Assumptions C18_never_addressee.
@@ -60,11 +72,49 @@ Theorem C18_never_addressee_refuted : ~ C18_never_addressee_full_statement.
 Proof.
   intros H.
   specialize (H st_mon (ESend 1 (ping 3)) 1
-                (mkItem (st_own st_mon) None (Some 1) (mkB TReturn SNone None 0 0 0 3 0 true false []) true [] (Some 1) [])
+                (mkItem (st_own st_mon) None (Some 1) (mkB TReturn SNone None 0 0 0 3 0 true false []) true [] (Some 1) [] false)
                 st_mon_reachable eq_refl (or_intror (or_introl eq_refl))).
   destruct H as [H _]. apply H. reflexivity.
 Qed.
 Print Assumptions C18_never_addressee_refuted.
+
+(* F18e: connection 0 has a call held for the activatable name 4, becomes a monitor, connection 1 acquires the
+   name (the call is delivered to it: something IS routed from a monitor) and leaves without answering: the bus
+   originates a NoReply addressed to the monitor and delivers it *)
+Definition held_call : bmsg := mkB TCall SNone (Some (NWk 4)) 6 20 2 0 0 false false [].
+Definition h_held : list event :=
+  [EConnect true; EConnect true; ESend 0 held_call; bm 0 3 []].
+Lemma st_held_reachable : forall h, reachable (state_after (h_held ++ h)).
+Proof. intros h; exists (h_held ++ h); reflexivity. Qed.
+
+Theorem C18_nothing_routed_from_monitor : forall st e x it,
+  creachable st -> is_monitor st x = true -> In it (snd (step st e)) -> i_local it = false -> i_from it <> Some x.
+Proof. exact nothing_routed_from_monitor. Qed.
+Print Assumptions C18_nothing_routed_from_monitor.
+
+Theorem C18_nothing_routed_from_monitor_refuted : ~ C18_nothing_routed_from_monitor_full_statement.
+Proof.
+  intros H.
+  pose (st := state_after (h_held ++ [])).
+  pose (it := nth 3 (snd (step st (ERequestName 1 2 4 false))) (mkItem [] None None (ping 0) true [] None [] false)).
+  specialize (H st (ERequestName 1 2 4 false) 0 it (st_held_reachable []) eq_refl).
+  assert (Hin : In it (snd (step st (ERequestName 1 2 4 false)))).
+  { vm_compute. right. right. right. left. reflexivity. }
+  specialize (H Hin eq_refl). apply H. reflexivity.
+Qed.
+Print Assumptions C18_nothing_routed_from_monitor_refuted.
+
+Theorem C18_never_addressee_routed_refuted : ~ C18_never_addressee_routed_full_statement.
+Proof.
+  intros H.
+  pose (st := state_after (h_held ++ [ERequestName 1 2 4 false])).
+  pose (it := nth 4 (snd (step st (EDisconnect 1))) (mkItem [] None None (ping 0) true [] None [] false)).
+  specialize (H st (EDisconnect 1) 0 it (st_held_reachable _) eq_refl).
+  assert (Hin : In it (snd (step st (EDisconnect 1)))).
+  { vm_compute. right. right. right. right. left. reflexivity. }
+  specialize (H Hin eq_refl). destruct H as [H _]. apply H. reflexivity.
+Qed.
+Print Assumptions C18_never_addressee_routed_refuted.
 
 (* ---------------------------------------------------------------- disconnected if it sends anything *)
 (* anything but a message on interface Peer without destination: the monitor is gone, nothing is emitted,
@@ -85,24 +135,52 @@ Qed.
 Print Assumptions C18_send_closes_refuted.
 
 (* ---------------------------------------------------------------- owns no names, loses its rules, awaits and owes no reply *)
-Theorem C18_owns_nothing : forall st x n, reachable st -> is_monitor st x = true -> ~ in_queue (st_own st) n x.
+Theorem C18_owns_nothing : forall st x n, creachable st -> is_monitor st x = true -> ~ in_queue (st_own st) n x.
 Proof. exact owns_nothing. Qed.
 Print Assumptions C18_owns_nothing.
 
-Theorem C18_loses_rules : forall st x f, reachable st -> is_monitor st x = true -> ~ In (x, f) (st_rules st).
+Theorem C18_loses_rules : forall st x f, creachable st -> is_monitor st x = true -> ~ In (x, f) (st_rules st).
 Proof. exact no_ordinary_rules. Qed.
 Print Assumptions C18_loses_rules.
 
 Theorem C18_no_pending_replies : forall st x p,
-  reachable st -> is_monitor st x = true -> In p (st_pend st) -> p_get p <> x /\ p_send p <> Some x.
+  creachable st -> is_monitor st x = true -> In p (st_pend st) -> p_get p <> x /\ p_send p <> Some x.
 Proof. exact no_pending_replies. Qed.
 Print Assumptions C18_no_pending_replies.
 
-(* the switch itself: whatever c owned, waited for or had asked for, afterwards it is a connected monitor
-   with no names, no ordinary rules, no part in any pending reply, and exactly the rules it asked for *)
-Theorem C18_switch_effect : forall st c s fs,
-  reachable st -> ordinary st c -> s <> 0 ->
-  let st' := fst (step st (EBecomeMonitor c s fs)) in
+(* ---------------------------------------------------------------- BecomeMonitor is all or nothing *)
+(* refused (caller not privileged / signature not "asu" / a flag set / some rule does not parse, wherever it stands
+   in the array): the step returns the state it started from and produces the captured call and ONE error, nothing else *)
+Theorem C18_switch_refused : forall st c s so fl rs,
+  ordinary st c -> s <> 0 -> refused st c so fl rs ->
+  let m := call_msg c s I_MONITORING M_BECOME_MONITOR in
+  step st (EBecomeMonitor c s so fl rs) = (st, [entry_item st c m; error_reply st c m (refusal_code st c so fl)]).
+Proof. exact switch_refused. Qed.
+Print Assumptions C18_switch_refused.
+
+(* accepted: the state afterwards, field by field *)
+Theorem C18_switch_exact : forall st c s rs fs,
+  ordinary st c -> s <> 0 -> memN c (st_unpriv st) = false -> parse_all rs = Some fs ->
+  fst (step st (EBecomeMonitor c s true 0 rs)) =
+  mkState (st_conns st) (st_next st) (filter (fun p => negb (snd p =? c)) (st_own st)) (drop_rules (st_rules st) c)
+          (st_mrules st ++ map (fun f => (c, f)) (match fs with [] => [empty_filter] | _ => fs end)) (st_mons st ++ [c])
+          (drop_pending (st_pend st) c) (st_unpriv st) (st_held st).
+Proof. exact switch_exact. Qed.
+Print Assumptions C18_switch_exact.
+
+(* accepted: what every other connection is delivered - per name of c, in the order c got them, what releasing
+   that name delivers (NameOwnerChanged to the rules that match, NameAcquired to the next in the queue), then
+   NoReply to everyone who was waiting for c *)
+Theorem C18_switch_signals : forall st c s rs fs x,
+  creachable st -> ordinary st c -> s <> 0 -> memN c (st_unpriv st) = false -> parse_all rs = Some fs -> x <> c ->
+  view x (snd (step st (EBecomeMonitor c s true 0 rs))) =
+  flat_map (fun n => view x (snd (remove_owner st c n))) (owned (st_own st) c) ++ view x (snd (noreply_items st c)).
+Proof. intros st c s rs fs x R. apply switch_signals. apply Inv_creachable; auto. Qed.
+Print Assumptions C18_switch_signals.
+
+Theorem C18_switch_effect : forall st c s rs fs,
+  ordinary st c -> s <> 0 -> memN c (st_unpriv st) = false -> parse_all rs = Some fs ->
+  let st' := fst (step st (EBecomeMonitor c s true 0 rs)) in
   is_monitor st' c = true /\ connected st' c = true /\
   owned (st_own st') c = [] /\ (forall f, ~ In (c, f) (st_rules st')) /\
   (forall p, In p (st_pend st') -> involves c p = false) /\
@@ -115,34 +193,49 @@ Theorem C18_transparent : C18_transparent_statement.
 Proof. exact transparent. Qed.
 Print Assumptions C18_transparent.
 
+(* F18e again: with the held call, connection 1 is delivered the monitor's call when it acquires the name; had
+   connection 0 simply left, it would be delivered nothing of the sort *)
+Theorem C18_transparent_refuted : ~ C18_transparent_full_statement.
+Proof.
+  intros H.
+  destruct (H [EConnect true; EConnect true; ESend 0 held_call] 0 3 true 0 [] I) as [_ H2].
+  - vm_compute. split; reflexivity.
+  - discriminate.
+  - vm_compute. reflexivity.
+  - destruct (H2 [] (ERequestName 1 2 4 false) 1 I) as [_ H3].
+    + vm_compute. split; reflexivity.
+    + vm_compute in H3. discriminate.
+Qed.
+Print Assumptions C18_transparent_refuted.
+
 (* monitors are erasable altogether: deleting all monitors from a state changes nothing any ordinary
    connection is delivered in the next step, nor the state they can observe later *)
 Theorem C18_erasable : forall st e,
-  reachable st ->
+  creachable st ->
   core (fst (step (core st) e)) = core (fst (step st e)) /\
   forall x, is_monitor st x = false -> view x (snd (step (core st) e)) = view x (snd (step st e)).
-Proof. intros st e R. apply step_erase. apply Inv_reachable; auto. Qed.
+Proof. intros st e R. apply step_erase. apply Inv_creachable; auto. Qed.
 Print Assumptions C18_erasable.
 
 (* ---------------------------------------------------------------- at most once in total *)
 Theorem C18_once_total : forall st e x it,
-  reachable st -> is_monitor st x = true -> In it (snd (step st e)) -> i_local it = false -> (total x it <= 1)%nat.
+  creachable st -> is_monitor st x = true -> In it (snd (step st e)) -> i_local it = false -> (total x it <= 1)%nat.
 Proof. exact once_total_old_monitor. Qed.
 Print Assumptions C18_once_total.
 
 (* F18c: with another monitor present, the connection that is becoming a monitor receives the
    NameOwnerChanged for its own unique name twice: through the ordinary rule it still has and as a monitor copy *)
 Definition noc_filter : flt := mkFilter (Some TSignal) None None None (Some M_NAME_OWNER_CHANGED).
-Definition h_two : list event := [EConnect; EConnect; EConnect; EBecomeMonitor 2 2 []; EAddMatch 0 2 noc_filter].
+Definition h_two : list event := [EConnect true; EConnect true; EConnect true; bm 2 2 []; EAddMatch 0 2 noc_filter].
 Lemma st_two_reachable : reachable (state_after h_two).
 Proof. exists h_two; reflexivity. Qed.
 
 Theorem C18_once_total_refuted : ~ C18_once_total_full_statement.
 Proof.
   intros H.
-  pose (it := nth 3 (snd (step (state_after h_two) (EBecomeMonitor 0 3 []))) (mkItem [] None None (ping 0) true [] None [])).
-  specialize (H (state_after h_two) (EBecomeMonitor 0 3 []) 0 it st_two_reachable eq_refl).
-  assert (Hin : In it (snd (step (state_after h_two) (EBecomeMonitor 0 3 [])))).
+  pose (it := nth 3 (snd (step (state_after h_two) (bm 0 3 []))) (mkItem [] None None (ping 0) true [] None [] false)).
+  specialize (H (state_after h_two) (bm 0 3 []) 0 it st_two_reachable eq_refl).
+  assert (Hin : In it (snd (step (state_after h_two) (bm 0 3 [])))).
   { vm_compute. right. right. right. left. reflexivity. }
   specialize (H Hin). vm_compute in H. exact (PeanoNat.Nat.nle_succ_diag_l 1 H).
 Qed.
@@ -157,7 +250,7 @@ Example ex_signal_copy :
   map (fun it => (i_cap it, b_sender (i_msg it))) (snd (step st_mon (ESend 0 (sig 2)))) = [([1], SConn 0)].
 Proof. vm_compute. reflexivity. Qed.
 
-(* a call to a name nobody owns: the call and the bus's error are both copied *)
+(* a call to a name nobody owns and nobody can provide: the call and the bus's error are both copied *)
 Example ex_undeliverable :
   map (fun it => (i_cap it, b_type (i_msg it), b_err (i_msg it))) (snd (step st_mon (ESend 0 (call (NWk 3) 2)))) =
   [([1], TCall, 0); ([1], TError, E_SERVICE_UNKNOWN)].
@@ -169,9 +262,20 @@ Example ex_to_monitor :
   [([1], None, 0); ([1], Some 0, E_SERVICE_UNKNOWN)].
 Proof. vm_compute. reflexivity. Qed.
 
+(* a call to an activatable name: copied when received (nothing else happens), delivered without a second copy
+   when the name is acquired; the monitor sees NameOwnerChanged, NameAcquired and the reply in between *)
+Example ex_held :
+  let s1 := step st_mon (ESend 0 (call (NWk 4) 2)) in
+  let s2 := step (fst s1) (ERequestName 0 3 4 false) in
+  (map (fun it => (i_cap it, i_direct it, i_resumed it)) (snd s1),
+   map (fun it => (i_cap it, i_direct it, i_resumed it)) (snd s2)) =
+  ([([1], None, false)],
+   [([1], None, false); ([1], None, false); ([1], Some 0, false); ([], Some 0, true); ([1], Some 0, false)]).
+Proof. vm_compute. reflexivity. Qed.
+
 (* a selective monitor: rule "sender = well-known name 0" wants what the owner of that name sends and nothing else *)
 Definition h_sel : list event :=
-  [EConnect; EConnect; EConnect; ERequestName 0 2 0 false; EBecomeMonitor 2 2 [mkFilter None (Some (NWk 0)) None None None]].
+  [EConnect true; EConnect true; EConnect true; ERequestName 0 2 0 false; bm 2 2 [Some (mkFilter None (Some (NWk 0)) None None None)]].
 Example ex_selective :
   (map i_cap (snd (step (state_after h_sel) (ESend 0 (sig 3)))), map i_cap (snd (step (state_after h_sel) (ESend 1 (sig 3))))) =
   ([[2]], [[]]).
@@ -182,17 +286,32 @@ Example ex_closed :
   let r := step st_mon (ESend 1 (sig 3)) in (snd r, connected (fst r) 1, is_monitor (fst r) 1) = ([], false, false).
 Proof. vm_compute. reflexivity. Qed.
 
+(* the four refusals, and a bad rule after two good ones: in each case the state is untouched *)
+Definition h_ref : list event := [EConnect true; EConnect false; ERequestName 0 2 0 false; EAddMatch 0 3 noc_filter].
+Example ex_refusals :
+  let st := state_after h_ref in
+  map (fun e => (fst (step st e) = st, map (fun it => b_err (i_msg it)) (snd (step st e))))
+      [EBecomeMonitor 1 2 true 0 []; EBecomeMonitor 0 4 false 0 []; EBecomeMonitor 0 4 true 1 [];
+       EBecomeMonitor 0 4 true 0 [Some empty_filter; Some noc_filter; None]] =
+  [(fst (step st (EBecomeMonitor 1 2 true 0 [])) = st, [0; E_ACCESS_DENIED]);
+   (fst (step st (EBecomeMonitor 0 4 false 0 [])) = st, [0; E_INVALID_ARGS]);
+   (fst (step st (EBecomeMonitor 0 4 true 1 [])) = st, [0; E_INVALID_ARGS]);
+   (fst (step st (EBecomeMonitor 0 4 true 0 [Some empty_filter; Some noc_filter; None])) = st, [0; E_MATCH_RULE_INVALID])] /\
+  refused st 1 true 0 [] /\ refused st 0 true 0 [Some empty_filter; Some noc_filter; None].
+Proof. vm_compute. split; [reflexivity | split; [left; reflexivity | right; right; right; right; right; left; reflexivity]]. Qed.
+
 (* why the switch step is compared up to order: x = 0 owns its unique name and n0; an observer of
    NameOwnerChanged reads the two signals in opposite orders *)
-Definition h_ord : list event := [EConnect; EConnect; ERequestName 0 2 0 false; EAddMatch 1 2 noc_filter].
+Definition h_ord : list event := [EConnect true; EConnect true; ERequestName 0 2 0 false; EAddMatch 1 2 noc_filter].
 Example ex_release_order :
   let v e := map (fun km => b_args (snd km)) (view 1 (snd (step (state_after h_ord) e))) in
-  v (EBecomeMonitor 0 3 []) = [[AName (NUniq 0); AName (NUniq 0); AEmpty]; [AName (NWk 0); AName (NUniq 0); AEmpty]] /\
-  v (EDisconnect 0)         = [[AName (NWk 0); AName (NUniq 0); AEmpty]; [AName (NUniq 0); AName (NUniq 0); AEmpty]].
+  v (bm 0 3 []) = [[AName (NUniq 0); AName (NUniq 0); AEmpty]; [AName (NWk 0); AName (NUniq 0); AEmpty]] /\
+  v (EDisconnect 0) = [[AName (NWk 0); AName (NUniq 0); AEmpty]; [AName (NUniq 0); AName (NUniq 0); AEmpty]].
 Proof. vm_compute. split; reflexivity. Qed.
 
 (* the hypotheses of C18_transparent are satisfiable, and a later step really delivers something *)
 Example ex_transparent_nonvacuous :
-  ordinary (state_after h_ord) 0 /\
-  length (view 1 (snd (step (state_after (h_ord ++ [EBecomeMonitor 0 3 []])) (ERequestName 1 3 1 false)))) = 3%nat.
-Proof. vm_compute. split; [split; reflexivity | reflexivity]. Qed.
+  calm init (h_ord ++ [bm 0 3 []]) = true /\ ordinary (state_after h_ord) 0 /\
+  is_monitor (fst (step (state_after h_ord) (bm 0 3 []))) 0 = true /\
+  length (view 1 (snd (step (state_after (h_ord ++ [bm 0 3 []])) (ERequestName 1 3 1 false)))) = 3%nat.
+Proof. vm_compute. repeat split; reflexivity. Qed.
